@@ -274,6 +274,12 @@ def gen_pair(rng, quirks=False, force=None):
     flags.update(force.get("flags", {}))
     use_mapper = rng.random() < 0.6
     mapper = {"name": "Mapper", "pkg": rng.choice(["src", "src", "mapper"])} if use_mapper else None
+    if mapper:
+        # the mapper may be embedded BY POINTER (loadTypeMapperPkg accepts *Mapper) and its methods may have pointer
+        # receivers; pointer-embedded + value receivers is the class of K_map_mapper_ptr_embedded
+        r = rng.random()
+        mapper["ptr"] = r < 0.22
+        mapper["recv"] = "ptr" if rng.random() < (0.45 if mapper["ptr"] else 0.2) else "value"
     funcs = [] if use_mapper else None
     names = list(NAMES)
     rng.shuffle(names)
@@ -443,9 +449,12 @@ def gen_pair(rng, quirks=False, force=None):
     if mapper:
         if mapper["pkg"] == "src":
             src_decls.append({"name": "Mapper", "kind": "struct", "fields": []})
-            sroot.insert(0, mk_field("Mapper", N("src", "Mapper"), emb=True))
+            mt = N("src", "Mapper")
         else:
-            sroot.insert(0, mk_field("Mapper", N("mapper", "Mapper"), emb=True))
+            mt = N("mapper", "Mapper")
+        sroot.insert(0, mk_field("Mapper", P(mt) if mapper.get("ptr") else mt, emb=True))
+        if mapper.get("ptr"):
+            feats.add("mapper:ptr:%s" % mapper.get("recv", "value"))
         # distractor methods that apply to nothing
         if rng.random() < 0.5:
             funcs.append({"name": "F%d" % len(funcs), "param": B("uint16"), "result": B("bool"), "kind": ["never"]})
@@ -618,7 +627,8 @@ def func_go(fn, here, spec):
             wt, ("if %s {\n\t\t%s\n\t}" % (guard, asg)) if guard else asg, "&" if k[7] else "")
     else:
         raise ValueError(k)
-    return "func (Mapper) %s(x %s) %s {\n\t%s\n}\n" % (fn["name"], p, r, body)
+    recv = "*Mapper" if (spec.get("mapper") or {}).get("recv") == "ptr" else "Mapper"
+    return "func (%s) %s(x %s) %s {\n\t%s\n}\n" % (recv, fn["name"], p, r, body)
 
 
 def go_zero(spec, t, here):
@@ -969,9 +979,24 @@ def coq_opt_names(l):
     return "(Some [%s])" % "; ".join('"%s"' % x[0] for x in l)
 
 
+def _is_mapper_field(f):
+    t = f["ty"][1] if f["ty"][0] == "ptr" else f["ty"]
+    return f["emb"] and t[0] == "named" and t[2] == "Mapper"
+
+
 def embeds_mapper(spec, tname):
     d = struct_decl(spec, "src", tname)
-    return any(f["emb"] and f["ty"][0] == "named" and f["ty"][2] == "Mapper" for f in d["fields"])
+    return any(_is_mapper_field(f) for f in d["fields"])
+
+
+def mapper_hop(spec, tname):
+    """Coq term for job.j_mapper_hop: Some ["Mapper"] iff the mapper is embedded by pointer in tname and its methods have
+    value receivers (then `t.F(x)` dereferences t.Mapper)"""
+    d = struct_decl(spec, "src", tname)
+    for f in d["fields"]:
+        if _is_mapper_field(f) and f["ty"][0] == "ptr" and (spec.get("mapper") or {}).get("recv", "value") == "value":
+            return '(Some ["Mapper"])'
+    return "None"
 
 
 def coq_accessor(a):
@@ -997,7 +1022,7 @@ def render_coq_pair(spec):
         jobs.append(
             '{| j_env := E; j_fuel := %d; j_src := "%s"; j_dst := "%s"; j_funcs := %s; j_ic := %s; '
             'j_src_acc := [%s]; j_dst_acc := [%s]; j_src_ctor := [%s]; j_dst_ctor := [%s]; j_src_shootnew := %s; '
-            'j_manual_to := %s; j_manual_from := %s |}' % (
+            'j_manual_to := %s; j_manual_from := %s; j_mapper_hop := %s |}' % (
                 fuel, j["src"], j["dst"], "FN" if embeds_mapper(spec, j["src"]) else "[]",
                 "true" if spec["flags"]["ic"] else "false",
                 "; ".join(coq_accessor(a) for a in j.get("src_acc", [])),
@@ -1005,7 +1030,7 @@ def render_coq_pair(spec):
                 "; ".join(coq_cparam(c) for c in j.get("src_ctor", [])),
                 "; ".join(coq_cparam(c) for c in j.get("dst_ctor", [])),
                 "true" if j.get("src_shootnew") else "false",
-                coq_opt_names(j.get("manual_to")), coq_opt_names(j.get("manual_from"))))
+                coq_opt_names(j.get("manual_to")), coq_opt_names(j.get("manual_from")), mapper_hop(spec, j["src"])))
 
     def mop(op):
         f, b, k = op
@@ -1232,6 +1257,35 @@ def corpus():
          {"name": "Addr2FromDest", "param": P(N("dst", "Inner")), "result": N("src", "Inner"),
           "kind": ["pick", "src", "Inner", "A", "A", "int", 4, False]}],
         {"name": "Mapper", "pkg": "src"}))
+    # 12. K_map_mapper_ptr_embedded: the mapper embedded BY POINTER with value-receiver methods (FromX panics after its
+    #     own reset, ToX when the Mapper pointer is nil); 13. the healthy twin with pointer receivers
+    for recv in ("value", "ptr"):
+        res.append(_spec(
+            [st("Mapper", []),
+             st("T", [_f("Mapper", P(N("src", "Mapper")), emb=True), _f("ID", B("int")), _f("Amt", B("string")), _f("Nm", B("string"))])],
+            [st("T", [_f("ID", B("int")), _f("Amt", B("int8")), _f("Nm", B("string"))])],
+            [_job("T", "T")],
+            [{"name": "StrToI8", "param": B("string"), "result": B("int8"), "kind": ["len", "int8", 1]},
+             {"name": "I8ToStr", "param": B("int8"), "result": B("string"), "kind": ["parity", "#x"]}],
+            {"name": "Mapper", "pkg": "src", "ptr": True, "recv": recv}))
+    # 14. K_map_tag_underscore: a tag on a field whose name contains `_` (the tag map is keyed by the Pascal form of the
+    #     name and looked up with the raw name) and a tag naming a destination field that contains `_` (only the Pascal
+    #     form of the tag is compared); Beta shows the healthy snake_case tag next to them
+    res.append(_spec(
+        [st("T", [_f("User_Name", B("string"), "Title"), _f("Alpha", B("string"), "Nick_name"), _f("Beta", B("int"), "zip_code"),
+                  _f("ID", B("int"))])],
+        [st("T", [_f("Title", B("string")), _f("Nick_name", B("string")), _f("ZipCode", B("int")), _f("ID", B("int"))])],
+        [_job("T", "T")]))
+    # 15./16. K_map_embedded_nonstruct: an embedded named NON-struct type is a field like any other (named after its type);
+    #     shoot drops it.  15: against a plain destination field, 16: embedded on both sides
+    res.append(_spec(
+        [st("T", [_f("Level", N("common", "Level"), emb=True), _f("ID", B("int"))])],
+        [st("T", [_f("Level", B("int16")), _f("ID", B("int"))])],
+        [_job("T", "T")]))
+    res.append(_spec(
+        [st("T", [_f("Code", N("common", "Code"), emb=True), _f("ID", B("int"))])],
+        [st("T", [_f("Code", N("common", "Code"), emb=True), _f("ID", B("int64"))])],
+        [_job("T", "T")]))
     return res
 
 
